@@ -118,7 +118,7 @@ func c07ProfTypes(r *Rng, core []int, aligned []c07Type) []c07Type {
 // conversions: the new unit must divide the value's physical quantity)
 func c07Converted(r *Rng, p *c07Prof) c07Prof {
 	perm := c07Perm(r, len(p.Types))
-	q := c07Prof{Build: p.Build, Sym: p.Sym, Hom: p.Hom}
+	q := c07Prof{Build: p.Build, Sym: p.Sym, Hom: p.Hom, Drop: p.Drop, Keep: p.Keep}
 	newUnits := make([]string, len(p.Types))
 	for j, t := range p.Types {
 		newUnits[j] = t.Unit
@@ -280,6 +280,39 @@ func c07GenCLI(r *Rng, i int) *c07Case {
 		cs.Strategy += "+tables"
 		all(func(p *c07Prof, isBase bool) {
 			p.IDs, p.Extra, p.Aslr = r.Intn(3), r.Intn(8), r.Intn(3)
+		})
+	}
+	if r.Chance(20) {
+		// drop_frames / keep_frames headers (the same in every member, as in profiles of one kind),
+		// with matching frames at the leaf side of some stacks
+		cs.Strategy += "+dropframes"
+		drop := r.Pick([]string{"fn5", "fn5|fn7", "fn7"}) // functions of single-line locations only (pruning inside inlined locations is C11's subject)
+		keep := r.Pick([]string{"", "", "fn6"})
+		leaf := map[string]int{"fn5": 5, "fn5|fn7": 5, "fn7": 7}[drop]
+		all(func(p *c07Prof, isBase bool) {
+			p.Drop, p.Keep = drop, keep
+			for i := range p.Samples {
+				if r.Chance(50) {
+					p.Samples[i].Stack = append([]int{leaf}, p.Samples[i].Stack...)
+				}
+			}
+		})
+	}
+	if !self && r.Chance(25) {
+		// samples with values but no stack at all (they count in the total only)
+		cs.Strategy += "+emptystacks"
+		all(func(p *c07Prof, isBase bool) {
+			for k, n := 0, 1+r.Intn(2); k < n; k++ {
+				sm := c07Sample{}
+				for _, t := range p.Types {
+					v := c07Value(r, t.Unit, false)
+					if v == 0 {
+						v = 3
+					}
+					sm.Values = append(sm.Values, v)
+				}
+				p.Samples = append(p.Samples, sm)
+			}
 		})
 	}
 	aslr := false
